@@ -42,6 +42,18 @@ var c08Universe = kit.EntUniverse{
 }
 
 func genC08(t *rapid.T) kit.History {
+	h := genC08History(t)
+	// some transactions are steps of MigrationManager.Migrate: a failed step (error reported on the step) is work
+	// that is rolled back like any other
+	for i := range h.Txs {
+		if !h.Txs[i].Batch && rapid.IntRange(0, 9).Draw(t, fmt.Sprintf("w%d_viaMigration", i)) == 0 {
+			h.Txs[i].ViaMigration = true
+		}
+	}
+	return h
+}
+
+func genC08History(t *rapid.T) kit.History {
 	second := rapid.IntRange(0, 2).Draw(t, "secondChild") == 0
 	cfg := c08Cfg(rapid.IntRange(0, 3).Draw(t, "extended") == 0, second)
 	return kit.GenHistory(t, cfg, 14, 4, false, 80, func(t *rapid.T, l string, m *kit.Model) kit.Op {
@@ -164,6 +176,78 @@ func (c08PlainStrategy) FillEntity(p *c08Plain, b *boltz.TypedBucket) {
 }
 func (c08PlainStrategy) PersistEntity(p *c08Plain, ctx *boltz.PersistContext) {
 	ctx.SetString("name", p.Name)
+}
+
+// c08BatchBesideFailingMember: a batched transaction that succeeds, with a commit action registered on its context before
+// the call, runs beside a batched transaction that fails (bbolt merges them, the batch fails, the members are run again
+// one by one). The commit action of the one that committed runs.
+func c08BatchBesideFailingMember(w *kit.World) error {
+	reran := false
+	for round := 0; round < 6 && !reran; round++ {
+		var ran, calls atomic.Int32
+		ctx := kit.NewCtx()
+		ctx.AddCommitAction(func() { ran.Add(1) })
+		good := make(chan error, 1)
+		go func() {
+			good <- w.Z.Db.Batch(ctx, func(c boltz.MutateContext) error {
+				calls.Add(1)
+				b, err := c.Tx().CreateBucketIfNotExists([]byte("zz-c08-batch"))
+				if err != nil {
+					return err
+				}
+				return b.Put([]byte(fmt.Sprintf("k%d", round)), []byte("v"))
+			})
+		}()
+		time.Sleep(time.Millisecond) // the failing member joins the batch behind the other one
+		bad := w.Z.Db.Batch(kit.NewCtx(), func(c boltz.MutateContext) error { return errInjected })
+		if bad == nil {
+			<-good
+			return fmt.Errorf("a batched transaction whose function fails returned nil")
+		}
+		if err := <-good; err != nil {
+			return fmt.Errorf("a batched transaction that does nothing wrong failed beside a failing one: %v", err)
+		}
+		deadline := time.Now().Add(5 * time.Second)
+		for ran.Load() == 0 && time.Now().Before(deadline) {
+			time.Sleep(200 * time.Microsecond)
+		}
+		if ran.Load() == 0 {
+			return fmt.Errorf("a batched transaction committed (beside a failing batch member; its function was called %d time(s)) and the commit action registered on its context before the call never ran", calls.Load())
+		}
+		reran = calls.Load() > 1
+	}
+	return nil
+}
+
+// c08ReusedContext: one context object is used for two transactions in a row; the first one's commit action is slow and
+// still running while the second transaction registers its own. Both actions run (how often is not asserted: a
+// context keeps its actions, so the unchanged tree runs the first one again with the second commit, and a commit
+// goroutine that starts late may also pick up the second one early).
+func c08ReusedContext(w *kit.World) error {
+	ctx := kit.NewCtx()
+	var first, second atomic.Int32
+	if err := w.Z.Db.Update(ctx, func(c boltz.MutateContext) error {
+		c.AddCommitAction(func() { time.Sleep(3 * time.Millisecond); first.Add(1) })
+		return nil
+	}); err != nil {
+		return fmt.Errorf("context used twice: first transaction: %v", err)
+	}
+	if err := w.Z.Db.Update(ctx, func(c boltz.MutateContext) error {
+		c.AddCommitAction(func() { second.Add(1) })
+		time.Sleep(12 * time.Millisecond) // the first transaction's action finishes while this one is still open
+		return nil
+	}); err != nil {
+		return fmt.Errorf("context used twice: second transaction: %v", err)
+	}
+	deadline := time.Now().Add(5 * time.Second)
+	for (second.Load() == 0 || first.Load() == 0) && time.Now().Before(deadline) {
+		time.Sleep(200 * time.Microsecond)
+	}
+	time.Sleep(5 * time.Millisecond)
+	if first.Load() < 1 || second.Load() < 1 {
+		return fmt.Errorf("one context used for two committed transactions: the first one's commit action ran %d time(s), the second one's %d time(s) (each has to run)", first.Load(), second.Load())
+	}
+	return nil
 }
 
 // c08UnchangedUpdate: a committed update is reported to the update listeners whether or not it changed anything.
@@ -447,6 +531,20 @@ func runC08(h kit.History) kit.Result {
 	if err := c08UnchangedUpdate(w); err != nil {
 		res.Err = err
 		return res
+	}
+	if len(h.Txs)%3 == 2 {
+		if err := c08BatchBesideFailingMember(w); err != nil {
+			res.Err = err
+			return res
+		}
+		res.Classes = append(res.Classes, "batch-beside-failing-member")
+	}
+	if len(h.Txs)%3 == 1 {
+		if err := c08ReusedContext(w); err != nil {
+			res.Err = err
+			return res
+		}
+		res.Classes = append(res.Classes, "context-used-for-two-transactions")
 	}
 	res.NonTrivial = multiOp || rollbackAfterWork || otherRoute
 	for name, on := range map[string]bool{"multi-op-committed-tx": multiOp, "rollback-after-queued-events": rollbackAfterWork, "child-entity-changed-through-parent": otherRoute} {
